@@ -12,7 +12,7 @@ RULE = ("random multifurcating trees (3..16 tips, 40 in thorough; rooted/unroote
         "scattered tips, everything but 3 / 2 / 1 / 0 tips, names absent from the tree mixed in; every shape on 4 tips "
         "(5 in thorough) x every subset x both flags exhaustively.  Cases leaving fewer than 3 tips are outside the "
         "property's quantifier: for them only the correspondence with the model (result or error message) is judged.  "
-        "non-trivial = the pruned tree differs from the input; distinct = distinct case text.  Chains: in a share of the cases (most of them in search mode) 1-3 single-child inner nodes are inserted directly above a pruned tip, preferably one whose parent is a bifurcation (inner node or root), sometimes also elsewhere; on such inputs the oracle demands the exact tip set, unchanged path lengths and that no single-child node is CREATED.  CLI stream (extra): `gotree prune` with names on the command line, -c, and -f tip files in every layout (one per line, comma separated, mixed, blank lines, no final newline, CRLF) and with long lines (4 KB+-2, 64 KB+-2, ~200 KB, padded with names absent from the tree; real names at the start, middle, end of the long line and on the lines after it), with and without -r; judged against the requested tip set and against the run with the names on the command line")
+        "non-trivial = the pruned tree differs from the input; distinct = distinct case text.  Negative lengths: in 30% of the random trees (50% in search mode) one to all present lengths are negated (never -1, the absent sentinel); the path-length clause is then also evaluated with every present length read as itself.  Chains: in a share of the cases (most of them in search mode) 1-3 single-child inner nodes are inserted directly above a pruned tip, preferably one whose parent is a bifurcation (inner node or root), sometimes also elsewhere; on such inputs the oracle demands the exact tip set, unchanged path lengths and that no single-child node is CREATED.  CLI stream (extra): `gotree prune` with names on the command line, -c, and -f tip files in every layout (one per line, comma separated, mixed, blank lines, no final newline, CRLF) and with long lines (4 KB+-2, 64 KB+-2, ~200 KB, padded with names absent from the tree; real names at the start, middle, end of the long line and on the lines after it), with and without -r; judged against the requested tip set and against the run with the names on the command line")
 TRUSTED = ["tree built through NewNode/NewEdge + verif hooks (exact neighbour order); dump through Neigh()/Edges()/Left()/Right()",
            "worker classifies TipNode results by pointer membership in Tips()"]
 ASSUMPTIONS = ["tip names are unique (Tree.ReinitIndexes refuses duplicates), so addressing tips by name in the model is exact"]
@@ -187,6 +187,36 @@ def pre_history_case(rng, g, tier):
     return {"sx": sx(case), "meta": {"how": "pre:" + mode, "revert": revert, "ntips": len(tips), "left>=3": left >= 3,
                                      "rooted": len(t["slots"]) == 2, "absent": mode == "gone-names"}}
 
+# Known finding C06-negative-length-clamped-on-merge (open, not repaired): removeTip merges two branches as
+# max(0,l1)+max(0,l2), so a negative length is read as 0.  Narrow matcher: the verdict is ORACLE with exactly the raw
+# path-length message, which Judge/C06.v evaluates LAST (after tip set, splits, single nodes, clamped distances,
+# look-ups and the correspondence with the bug-compatible model all passed), and the input tree of the case has a
+# negative length other than the absent sentinel -1.
+_NEG_MSG = "a path length between two remaining tips changed (a negative branch length was replaced by 0)"
+_NEG_LEN = re.compile(r"\(D (-\d+(?:/\d+)?) ")
+
+def _neg_clamped(case):
+    if case.get("kind") != "ORACLE":
+        return False
+    f = case.get("fields") or []
+    if len(f) != 1 or f[0] != _NEG_MSG:
+        return False
+    return any(v != "-1" for v in _NEG_LEN.findall(case.get("sx") or ""))
+
+MATCHERS = {"C06-negative-length-clamped-on-merge": _neg_clamped}
+
+def negate_lengths(rng, t, prob=0.3):
+    """negative branch lengths (legal Newick, NJ trees have them): some present lengths become
+    their opposite, on inner and tip branches; -1 is avoided (it is the 'absent' sentinel)"""
+    if rng.random() >= prob:
+        return False
+    es = [e for x in preorder(t) for e, _ in kids(x) if e["len"] is not None and e["len"] > 0 and e["len"] != 1]
+    if not es:
+        return False
+    for e in rng.sample(es, min(len(es), rng.choice([1, 1, 2, 3, len(es)]))):
+        e["len"] = -e["len"]
+    return True
+
 def gen(rng, tier):
     g = Gen(rng)
     out = []
@@ -202,6 +232,8 @@ def gen(rng, tier):
             lm = "all" if all(e["len"] is not None for x in preorder(t) for e, _ in kids(x)) else "mixed"
             if add_chains(rng, g, t, remove, lm):
                 label += "+chain"
+        if negate_lengths(rng, t, 0.5 if tier == "search" else 0.3):
+            label += "+neg"
         out.append(mk_case(rng, t, remove, label, rng.random() < 0.4, rng.random() < 0.25))
     for _ in range({"quick": 250, "thorough": 3000, "search": 700}[tier]):
         out.append(pre_history_case(rng, g, tier))
